@@ -28,6 +28,8 @@ type Case struct {
 	Runs   []int `json:"runs,omitempty"`
 	Gaps   []int `json:"gaps,omitempty"`
 	Origin int   `json:"origin,omitempty"`
+	// Prior: a string canonicalised immediately before the judged calls, its result discarded
+	Prior string `json:"prior,omitempty"`
 }
 
 func (c Case) Bytes() []byte {
@@ -142,6 +144,14 @@ func oracle(s []byte) ([]byte, error) {
 
 func check(c Case) error {
 	s := c.Bytes()
+	if len(s) <= 20000 {
+		for _, sib := range vk.Siblings(string(s)) { // related inputs first, results discarded
+			_ = seqhash.RotateSequence(sib)
+		}
+	}
+	if c.Prior != "" {
+		_ = seqhash.RotateSequence(c.Prior)
+	}
 	want, err := oracle(s)
 	if err != nil {
 		return err
@@ -287,6 +297,21 @@ func genStructured(t *rapid.T) Case {
 }
 
 func TestSub_structured(t *testing.T) { vk.RunRapid(t, subStructured) }
+
+var subCollisions = vk.Register(&vk.Sub[Case]{Name: "collisions", Check: check, NonTrivial: nonTrivial, Sample: sample})
+
+// TestSub_collisions: the two strings of every checksum-colliding pair (vk.CollidingPairs) one directly after the other.
+func TestSub_collisions(t *testing.T) {
+	vk.RunEnum(t, subCollisions, "every checksum-colliding pair of 30-letter strings x both orders", true, func(yield func(Case) bool) {
+		for _, pr := range vk.CollidingPairs() {
+			for _, o := range [][2]string{{pr.A, pr.B}, {pr.B, pr.A}} {
+				if !yield(Case{Kind: "literal", Unit: []byte(o[1]), Prior: o[0], Rots: []int{1, 7, 29}}) {
+					return
+				}
+			}
+		}
+	})
+}
 
 // TestSub_edges walks the edge lengths (vk.EdgeSizes) of 200..10^6 and evaluates, at each, periodic
 // strings, periodic strings with one letter changed (to a smaller and to a larger letter, near the end,
